@@ -924,7 +924,8 @@ fn enumerate_configs(ctx: &Ctx) -> Box<dyn Iterator<Item = Case>> {
 }
 
 pub fn subs() -> Vec<Box<dyn Sub>> {
-    vec![Box::new(PropSub::<Case> {
+    vec![
+        Box::new(super::fuzzsub::FuzzSub { target: "fuzz_build", name: "fuzz-build", runs: 20_000_000, quick_runs: 600_000, max_len: 512 }),Box::new(PropSub::<Case> {
         name: "constructors-all-configs",
         rule: "the 22 constructors of fixed-size tags (they exist without the builder feature) called with the same argument words inside four separately compiled servers - {dev, release} x {default features, --no-default-features} - and compared with the independent encoder: as_bytes() length, size field, image up to the size. Enumerated: each such constructor with 6 byte-marked argument sets; generated: random / boundary words. Every case is non-trivial; distinct by hash(spec image, constructor)",
         profiles: Profiles::ReleaseOnly,
